@@ -17,6 +17,33 @@ pub use self::native::*;
 mod native {
     use std::cell::RefCell;
 
+    use crate::axecutor::Axecutor;
+    use crate::helpers::errors::AxError;
+    use iced_x86::Instruction;
+
+    /// Verification hook H6: in a native replay build the step-level harnesses replace the
+    /// decoder and the mnemonic dispatch by the same functions the model checker uses as stubs.
+    pub type DecodeOverride = fn(&Axecutor, u64) -> Result<Instruction, AxError>;
+    pub type DispatchOverride = fn(&mut Axecutor, Instruction) -> Result<(), AxError>;
+
+    thread_local! {
+        static DECODE: RefCell<Option<DecodeOverride>> = RefCell::new(None);
+        static DISPATCH: RefCell<Option<DispatchOverride>> = RefCell::new(None);
+    }
+
+    pub fn set_overrides(decode: Option<DecodeOverride>, dispatch: Option<DispatchOverride>) {
+        DECODE.with(|d| *d.borrow_mut() = decode);
+        DISPATCH.with(|d| *d.borrow_mut() = dispatch);
+    }
+
+    pub(crate) fn decode_override() -> Option<DecodeOverride> {
+        DECODE.with(|d| *d.borrow())
+    }
+
+    pub(crate) fn dispatch_override() -> Option<DispatchOverride> {
+        DISPATCH.with(|d| *d.borrow())
+    }
+
     thread_local! {
         static QUEUE: RefCell<Option<Vec<Vec<u8>>>> = RefCell::new(None);
     }
